@@ -449,3 +449,90 @@ Definition label_ok (p : purity) (ms : list string) : bool :=
 Definition label_exceptions_pre : list string := ["FOpen"; "UnStack"; "UnDump"; "TryClose"]%string.
 Definition labels_pre : list (string * purity) :=
   [("FOpen", Impure); ("UnStack", Impure); ("UnDump", Impure); ("TryClose", Pure)]%string.
+
+(** * The compile-time state a reused compiler carries from snippet to snippet.
+    Transcribed from
+      src/compile/mod.rs:73-91        fields comptime_depth, in_try, in_fill, pre_eval_mode
+      src/compile/modifier.rs:1388    inline_modifier, `Fill` arm: the filled function is compiled with
+                                      pre_eval_mode = Lsp and in_fill = true, both restored BEFORE the `?`
+      src/compile/mod.rs:2284         try_: in_try = true around the branches, restored before the `?`
+      src/compile/modifier.rs:1766    the macro expansion function: comptime_depth += 1, a depth check that
+                                      returns Err, `?` on the expansion, comptime_depth -= 1 at the end only
+      src/compile/modifier.rs:2225    quote (the generated code of a code macro): parse errors return first;
+                                      then pre_eval_mode = min(mode, Line), comptime_depth += 1, a depth
+                                      check that returns Err, `items` (collects the errors of its lines and
+                                      answers Ok), comptime_depth -= 1, mode restored
+    The words are abstracted to what matters for that state. *)
+Record cstate := CS { cs_mode : pmode; cs_in_fill : bool; cs_in_try : bool; cs_depth : nat }.
+
+Inductive cword :=
+| WLeaf (ok : bool)                       (* a word that touches none of the saved state; compiles or returns Err *)
+| WSeq (ws : list cword)                  (* operands of any other modifier: compiled in order, `?` on each *)
+| WParen (ws : list cword)                (* ( ... ) / lines through Compiler::items: errors collected, answers Ok *)
+| WFill (f fillw : cword)
+| WTry (branches : list cword)
+| WCodeMacro (parse_ok : bool) (body : cword).   (* use of a code macro whose output parses (or not) to [body] *)
+
+Definition mode_rank (m : pmode) : nat := match m with Lazy => 0 | Line => 1 | Normal => 2 | Lsp => 3 end.
+Definition mode_min_line (m : pmode) : pmode := if mode_rank m <=? 1 then m else Line.
+Definition MAX_COMPTIME_DEPTH : nat := 20.     (* release builds; 5 with debug assertions *)
+
+Definition set_fill (s : cstate) (m : pmode) (b : bool) : cstate := CS m b (cs_in_try s) (cs_depth s).
+Definition set_try (s : cstate) (b : bool) : cstate := CS (cs_mode s) (cs_in_fill s) b (cs_depth s).
+Definition set_depth (s : cstate) (d : nat) : cstate := CS (cs_mode s) (cs_in_fill s) (cs_in_try s) d.
+Definition set_mode (s : cstate) (m : pmode) : cstate := CS m (cs_in_fill s) (cs_in_try s) (cs_depth s).
+
+(** operands compiled in order with `?` on each *)
+Fixpoint cseq (cc : cstate -> cword -> bool * cstate) (s0 : cstate) (ws : list cword) : bool * cstate :=
+  match ws with
+  | [] => (true, s0)
+  | x :: t => let (ok, s1) := cc s0 x in if ok then cseq cc s1 t else (false, s1) end.
+(** lines through Compiler::items: every line is compiled, the errors are collected *)
+Definition clines (cc : cstate -> cword -> bool * cstate) (s0 : cstate) (ws : list cword) : cstate :=
+  fold_left (fun s1 x => snd (cc s1 x)) ws s0.
+
+(** [fixed_fill = true]: the code as it stands.  [false]: the fill arm with the `?` before the
+    restore (the shape of the seeded defect), kept to show that the invariant below can fail. *)
+Fixpoint ccompile (fixed_fill : bool) (fuel : nat) (s : cstate) (w : cword) {struct fuel} : bool * cstate :=
+  match fuel with O => (false, s) | S k =>
+  match w with
+  | WLeaf ok => (ok, s)
+  | WSeq ws => cseq (ccompile fixed_fill k) s ws
+  | WParen ws => (true, clines (ccompile fixed_fill k) s ws)
+  | WFill f fw =>
+      let (ok, s2) := ccompile fixed_fill k (set_fill s Lsp true) f in
+      if negb ok && negb fixed_fill then (false, s2) else
+      let s3 := set_fill s2 (cs_mode s) (cs_in_fill s) in
+      if ok then ccompile fixed_fill k s3 fw else (false, s3)
+  | WTry bs =>
+      let (ok, s2) := cseq (ccompile fixed_fill k) (set_try s true) bs in
+      (ok, set_try s2 (cs_in_try s))
+  | WCodeMacro pok body =>
+      let s1 := set_depth s (S (cs_depth s)) in
+      if MAX_COMPTIME_DEPTH <? cs_depth s1 then (false, s1) else
+      if negb pok then (false, s1) else
+      let s2 := set_depth (set_mode s1 (mode_min_line (cs_mode s1))) (S (cs_depth s1)) in
+      if MAX_COMPTIME_DEPTH <? cs_depth s2 then (false, s2) else
+      let s3 := snd (ccompile fixed_fill k s2 body) in
+      let s4 := set_mode (set_depth s3 (pred (cs_depth s3))) (cs_mode s1) in
+      (true, set_depth s4 (pred (cs_depth s4)))
+  end end.
+
+Fixpoint no_macro (w : cword) : bool :=
+  match w with
+  | WLeaf _ => true
+  | WSeq ws | WParen ws | WTry ws => forallb no_macro ws
+  | WFill f fw => no_macro f && no_macro fw
+  | WCodeMacro _ _ => false
+  end.
+
+Definition cstate_eqb (a b : cstate) : bool :=
+  Nat.eqb (mode_rank (cs_mode a)) (mode_rank (cs_mode b)) && Bool.eqb (cs_in_fill a) (cs_in_fill b) &&
+  Bool.eqb (cs_in_try a) (cs_in_try b) && Nat.eqb (cs_depth a) (cs_depth b).
+(** correspondence: (state before, abstraction of the snippet, state observed after) *)
+Fixpoint failing_states (i : N) (l : list (cstate * cword * cstate)) : list N :=
+  match l with [] => [] | (b, w, a) :: t =>
+    if cstate_eqb (snd (ccompile true 200 b w)) a then failing_states (i + 1)%N t
+    else i :: failing_states (i + 1)%N t end.
+Fixpoint nest_macro (n : nat) (w : cword) : cword :=
+  match n with O => w | S k => WCodeMacro true (nest_macro k w) end.
